@@ -1,12 +1,26 @@
 #!/bin/bash
-# usage: seedcheck.sh <seeded-dir> <PROP> [PROP...]   -- apply /verif/seeded/<dir>/patch.diff to /repo, run the quick checks, undo
+# usage: seedcheck.sh <seeded-dir> <PROP> [PROP...]
+# Runs the quick checks against /repo + /verif/seeded/<dir>/patch.diff. By default the patch is applied to a
+# scratch worktree of /repo (VERIF_REPO points the checks at it) so that background runs using /repo are not
+# disturbed; SEEDCHECK_INPLACE=1 applies it to /repo itself and undoes it afterwards.
 set -u
 D=/verif/seeded/$1; shift
-cd /repo && git diff --quiet || { echo "/repo is dirty"; exit 2; }
-git -C /repo apply "$D/patch.diff" || { echo "patch does not apply"; exit 2; }
+if [ -n "${SEEDCHECK_INPLACE:-}" ]; then
+  cd /repo && git diff --quiet || { echo "/repo is dirty"; exit 2; }
+  git -C /repo apply "$D/patch.diff" || { echo "patch does not apply"; exit 2; }
+  R=/repo
+else
+  R=/tmp/seedrepo-$$
+  git -C /repo worktree add -q --detach $R HEAD || exit 2
+  git -C $R apply "$D/patch.diff" || { echo "patch does not apply"; git -C /repo worktree remove --force $R; exit 2; }
+fi
 for P in "$@"; do
-  (cd /verif && ./check $P --tier quick ${SEEDCHECK_ARGS:-} 2>&1 | grep -v "^  violation\|^      \|^  [a-z]*/\|^$\|^  github\|^  verif\|^Goroutine\|^Previous\|^Read at\|^Write at\|^  sync\|^  runtime" | cut -c1-260 | tail -6; echo "== $P exit ${PIPESTATUS[0]}")
+  (cd /verif && VERIF_REPO=$R ./check $P --tier quick ${SEEDCHECK_ARGS:-} 2>&1 | grep -v "^  violation\|^      \|^  [a-z]*/\|^$\|^  github\|^  verif\|^Goroutine\|^Previous\|^Read at\|^Write at\|^  sync\|^  runtime" | cut -c1-260 | tail -${SEEDCHECK_TAIL:-6}; echo "== $P exit ${PIPESTATUS[0]}")
 done
-git -C /repo checkout -- .
+if [ -n "${SEEDCHECK_INPLACE:-}" ]; then
+  git -C /repo checkout -- .
+else
+  git -C /repo worktree remove --force $R
+fi
 git -C /verif checkout -- evidence 2>/dev/null
 git -C /repo status --short | head -3
